@@ -5,6 +5,12 @@ V = os.path.dirname(os.path.dirname(os.path.abspath(__file__)))
 ALL = ["C%02d" % i for i in range(1, 20)]
 TECH = "symbolic execution of the real /repo source on z3 bit-vector proxies (symx), per-path SMT queries, concrete replay"
 CLAIMED = {
+ "C09": dict(text="(a) bounded symbolic verification of sequential isolation over all ordered pairs (triples) of command classes; "
+                  "(b) thread interleavings decided by an SMT partial-order encoding (z3 integer clocks, reads-from) of the "
+                  "shared-memory accesses traced in solo runs through the instrumenting loader; a model is a schedule, replayed "
+                  "with real threads in plain python under line-level gating.", ref="3/C09",
+             note="2 threads, line-level steps, shared state = what the tracer sees (class/module attributes and objects "
+                  "reachable from them); more threads and C-level state outside"),
  "C12": dict(text="Bounded symbolic verification against a standards-only target model with an arbitrary-function disk: "
                   "inductive step per facade call (symbolic probe address) plus explicit W;R / W;W;R / WS;R histories with "
                   "independent full-width symbolic LBAs (every aliasing decided by z3), over both transports' stubs.",
